@@ -12,7 +12,7 @@ RULE = ("one evaluation = one well-formed tree encoded by WriteEncoder and decod
         "non-trivial = has attribute/child/content and uses a non-token string or a size/list boundary class; distinct by tree hash")
 ASSUMPTIONS = ["inputs are well-formed per the quantifier (non-empty Latin-1 strings not ending in '@', reserved words excluded)",
                "ProtocolTreeNode.__eq__ is not used as oracle; it is only required to answer True for trees found equal"]
-REQUIRED = ["roundtrips", "layer_roundtrips", "feature:bin31", "feature:bin20", "feature:list16", "feature:hdr16",
+REQUIRED = ["trees_scribbled", "roundtrips", "layer_roundtrips", "feature:bin31", "feature:bin20", "feature:list16", "feature:hdr16",
             "feature:s:token2", "feature:s:jid", "feature:s:nibble<128", "feature:s:hex<128"]
 TIMEOUT = {"quick": 900, "thorough": 7200}
 
@@ -35,6 +35,9 @@ def keyfeat(tree):
 
 
 _layers = None
+
+
+_scribble_counter = [0]
 
 
 def coder_pair():
@@ -107,6 +110,27 @@ def check_tree(acc, cid, tree, enc, dec, via_layer=True):
             acc.violation("layer-roundtrip-differs:%s" % keyfeat(tree), "through two coder layers: %s" % d, w)
         else:
             acc.count("layer_roundtrip_ok")
+    # Trees are independent of each other: what an application (or a layer) does to one decoded tree - annotate it with an
+    # attribute, hang a child on it, replace its content - must not show in any tree decoded or built later. Every later case
+    # is compared with plain data, so anything shared between node objects surfaces there.
+    _scribble_counter[0] += 1
+    if _scribble_counter[0] % 7 == 0:
+        try:
+            from yowsup.structs import ProtocolTreeNode
+
+            def scribble(n, depth=0):
+                n["verif-mark"] = "1"
+                n.setAttribute("verif-mark2", "2")
+                for ch in list(n.getAllChildren())[:3]:
+                    if depth < 3:
+                        scribble(ch, depth + 1)
+                if not n.getAllChildren() and n.getData() is None:
+                    n.addChild(ProtocolTreeNode("verif-child"))
+            scribble(back)
+            scribble(node)
+            acc.count("trees_scribbled")
+        except Exception as e:  # noqa
+            acc.violation("node-mutation-raises:%s" % type(e).__name__, "annotating a decoded tree raised %r" % (e,), w)
 
 
 def shards(tier, seed, nworkers):
